@@ -465,6 +465,11 @@ func mcJobs(c *Ctx) []MCJob {
 	add("verif.s0.M", "msi,min,mbb", 2, 3)
 	add("verif.s0.M", "n,oi,os,on,qb,qd", 2, 3)
 	add("verif.s0.N", "", 2, 3)
+	// every ORDER of three records over the members of one oneof (message member, other member,
+	// message member again ...): small alphabets, length 3 also in the quick tier
+	add("verif.s0.M", "os,on", 3, 4)
+	add("A", "ONEOF_B,ONEOF_STRING", 3, 4)
+	add("goproto.proto.test3.TestAllTypes", "oneof_nested_message,oneof_string,oneof_uint32", 3, 3)
 	// checked-in types (sub-schemas derived from the real descriptors)
 	add("A", "enum,some_boolean,INT32,SINT32,UINT32,INT64,SING64,UINT64,SFIXED32,FIXED32,FLOAT,SFIXED64,FIXED64,DOUBLE,STRING,BYTES", 2, 2)
 	add("A", "MESSAGE,MAP,LIST,ONEOF_B,ONEOF_STRING,LIST_ENUM,imported", 2, 3)
